@@ -366,6 +366,8 @@ class RawVoltageBackend(object):
             except BaseException as err:
                 tqdm(f'Could not parse DIRECTIO value `{header_dict["DIRECTIO"]}` ({repr(err)}). Replacing with `0`.')
                 header_dict['DIRECTIO'] = 0
+                # ... and then do not pad: the card now says 0
+                directio = False
 
         # Write each line with space and zero padding
         header_lines = 0
